@@ -162,3 +162,5 @@ M("c17-unfix-vector-inplace", "C17", "core/vector.py", "        for c, xyz in lh
 M("c17-unfix-vector-alias-copy", "C17", "core/vector.py", "        if _shares_memory(lhs, rhs):\n            rhs = rhs.copy()", "        if False and _shares_memory(lhs, rhs):\n            rhs = rhs.copy()", "operand aliasing a component is not copied before the component-wise update")
 M("c03-unfix-depth-step", "C03", "plot/map.py", "        zspacing = abs(zmax - zmin) or 1.0", "        zspacing = zmax - zmin", "negative depth step for automatic windows (the original defect; needs the origin near the domain edge)")
 M("c05-degenerate-no-widening", "C05", "plot/histogram2d.py", "    if xmin == xmax:\n        if xmin == 0.0:", "    if xmin == xmax and xmin == 0.0:\n        if xmin == 0.0:", "all x equal and non-zero: the zero-width automatic range is not widened")
+M("c03-render-transposed", "C03", "plot/wrappers.py", "    out = ax.pcolormesh(x, y, z, **default_args)", "    out = ax.pcolormesh(x, y, z[::-1, :] if z.shape[0] > 1 and z.shape[0] == z.shape[1] else z, **default_args)", "rendered image flipped vertically for square maps (the returned data are right)")
+M("c03-render-xlim", "C03", "plot/map.py", "        figure[\"ax\"].set_xlim(xmin, xmax)", "        figure[\"ax\"].set_xlim(xmin, xmax * 1.02)", "x axis of the rendered map extends beyond the window")
